@@ -722,7 +722,7 @@ EnterPrepG(e, rev, c0, fail, str, init) ==
            cap == IF c0 = 0 \/ ~r.ok THEN 0 ELSE (r.hi - r.lo) \div e.sz
        IN /\ chunks' = r.chunks /\ cur' = r.cur /\ base' = r.base
           /\ frames' = Append(frames, [kind |-> "prep", cp |-> Checkpoint, live |-> LiveIds, ma |-> ma, cps |-> cps, alloc0 |-> StatAllocated(chunks, cur),
-                                        esz |-> e.sz, eal |-> e.al, rev |-> rev, lo |-> r.lo, hi |-> r.hi, cap |-> cap,
+                                        esz |-> e.sz, eal |-> e.al, eal0 |-> e.al, rev |-> rev, lo |-> r.lo, hi |-> r.hi, cap |-> cap,
                                         len |-> IF init /\ r.ok THEN c0 ELSE 0,
                                         failed |-> ~r.ok])
           /\ cps' = <<>> /\ last' = 0
@@ -743,7 +743,7 @@ PrepPush(fail) ==
           /\ fail => (CanFail /\ grows /\ PrepNeedsBase(chunks, cur, ncap * f.esz, f.eal))
           /\ LET r == IF grows THEN DoPrep(chunks, cur, base, ncap * f.esz, f.eal, fail)
                        ELSE [ok |-> TRUE, chunks |-> chunks, cur |-> cur, base |-> base, lo |-> f.lo, hi |-> f.hi]
-                 cap2 == IF r.ok THEN (r.hi - r.lo) \div f.esz ELSE f.cap
+                 cap2 == IF grows /\ r.ok THEN (r.hi - r.lo) \div f.esz ELSE f.cap
              IN /\ chunks' = r.chunks /\ cur' = r.cur /\ base' = r.base
                 /\ frames' = [frames EXCEPT ![Depth] = IF r.ok THEN [f EXCEPT !.lo = r.lo, !.hi = r.hi, !.cap = cap2, !.len = f.len + 1]
                                                          ELSE f]
@@ -764,7 +764,7 @@ PrepReserve(additional, fail) ==
        IN /\ fail => (CanFail /\ grows /\ PrepNeedsBase(chunks, cur, ncap * f.esz, f.eal))
           /\ LET r == IF grows THEN DoPrep(chunks, cur, base, ncap * f.esz, f.eal, fail)
                        ELSE [ok |-> TRUE, chunks |-> chunks, cur |-> cur, base |-> base, lo |-> f.lo, hi |-> f.hi]
-                 cap2 == IF r.ok THEN (r.hi - r.lo) \div f.esz ELSE f.cap
+                 cap2 == IF grows /\ r.ok THEN (r.hi - r.lo) \div f.esz ELSE f.cap
              IN /\ chunks' = r.chunks /\ cur' = r.cur /\ base' = r.base
                 /\ frames' = [frames EXCEPT ![Depth] = IF r.ok THEN [f EXCEPT !.lo = r.lo, !.hi = r.hi, !.cap = cap2] ELSE f]
                 /\ fails' = IF fail THEN fails + 1 ELSE fails
@@ -797,7 +797,7 @@ PrepExtend(k, fail) ==
           /\ fail => (CanFail /\ grows /\ PrepNeedsBase(chunks, cur, ncap * f.esz, f.eal))
           /\ LET r == IF grows THEN DoPrep(chunks, cur, base, ncap * f.esz, f.eal, fail)
                        ELSE [ok |-> TRUE, chunks |-> chunks, cur |-> cur, base |-> base, lo |-> f.lo, hi |-> f.hi]
-                 cap2 == IF r.ok THEN (r.hi - r.lo) \div f.esz ELSE f.cap
+                 cap2 == IF grows /\ r.ok THEN (r.hi - r.lo) \div f.esz ELSE f.cap
              IN /\ chunks' = r.chunks /\ cur' = r.cur /\ base' = r.base
                 /\ frames' = [frames EXCEPT ![Depth] = IF r.ok THEN [f EXCEPT !.lo = r.lo, !.hi = r.hi, !.cap = cap2, !.len = f.len + k] ELSE f]
                 /\ fails' = IF fail THEN fails + 1 ELSE fails
@@ -806,6 +806,18 @@ PrepExtend(k, fail) ==
                         Exp(IF r.ok THEN "ok" ELSE "err", 0,
                             [cap |-> cap2, lo |-> r.lo, hi |-> r.hi, len |-> IF r.ok THEN f.len + k ELSE f.len,
                              newchunk |-> Len(r.chunks) > Len(chunks)]))
+
+\* map_in_place to a smaller element type (u64 -> u32, [u8; 3] -> u8): the elements are rewritten in place from the start of the
+\* buffer, the capacity is rescaled to the same bytes (capacity * size_of::<T>() / size_of::<U>()); nothing else moves
+PrepMap ==
+    /\ Active /\ InPrep /\ ~frames[Depth].failed /\ ~frames[Depth].rev /\ frames[Depth].esz \in {8, 3}
+    /\ LET f == frames[Depth]
+           nsz == IF f.esz = 8 THEN 4 ELSE 1
+           nal == IF f.esz = 8 THEN 4 ELSE 1
+           ncap == (f.cap * f.esz) \div nsz
+       IN /\ frames' = [frames EXCEPT ![Depth] = [f EXCEPT !.esz = nsz, !.eal = nal, !.cap = ncap]]
+          /\ UNCHANGED <<cfg, base, chunks, cur, ma, blocks, cps, nextId, order, parts, last, fails, dropped>>
+          /\ Step("prep_map", [esz |-> nsz, eal |-> nal], Exp("ok", 0, [cap |-> ncap, lo |-> f.lo, hi |-> f.hi, len |-> f.len, newchunk |-> FALSE]))
 
 \* into_slice / into_boxed_slice: the elements are moved to the bump side of the prepared range, the position is set
 \* just past them (aligned to the minimum alignment only if the element alignment is smaller)
@@ -829,7 +841,7 @@ PrepCommit ==
           /\ cps' = f.cps
           /\ UNCHANGED <<cfg, base, cur, ma, fails, dropped>>
           /\ Step("prep_commit", [id |-> IF touched /\ n > 0 THEN nextId ELSE 0],
-                  Exp("ok", addr, [len |-> f.len, esz |-> f.esz, eal |-> f.eal, rev |-> f.rev, touched |-> touched]))
+                  Exp("ok", addr, [len |-> f.len, esz |-> f.esz, eal |-> f.eal, eal0 |-> f.eal0, rev |-> f.rev, touched |-> touched]))
 
 \* ---- one-shot helpers: alloc_iter_mut / alloc_iter_mut_rev ----------------------------------------------------------
 \* = MutBumpVec(Rev)::with_capacity_in(size_hint.0) ; push every element ; into_boxed_slice -- in one call.
@@ -1007,6 +1019,17 @@ VecReserveHuge(id, kind) ==
                                  osz |-> b.sz, esz |-> b.esz, eal |-> b.al, wrap |-> b.wrap, fixed |-> b.fixed],
                   Exp("err", b.addr, [waslast |-> last = id, wastop |-> Top(order) = id, inplace |-> FALSE, newchunk |-> FALSE,
                                       len |-> b.vlen, cap |-> VCap(b)]))
+
+\* splice(1..2, an iterator that honestly announces more elements than any vector can hold): the one removed element is
+\* replaced, then making room for the rest reports a capacity overflow by an unwinding panic (splice has no try_ twin);
+\* the vector keeps its buffer, length and capacity: head, one replacement, tail
+VecSpliceHuge(id) ==
+    /\ Active /\ Free /\ OwnVec(id)
+    /\ LET b == blocks[id] IN
+       /\ ~b.fixed /\ b.esz >= 8 /\ b.vlen >= 3
+       /\ UNCHANGED <<cfg, base, chunks, cur, ma, frames, blocks, cps, nextId, order, parts, last, fails, dropped>>
+       /\ Step("vec_splice_huge", [id |-> id, huge |-> "splice", esz |-> b.esz, eal |-> b.al, wrap |-> b.wrap],
+               Exp("panic", b.addr, [len |-> b.vlen, cap |-> VCap(b)]))
 
 \* the shrink of shrink_to_fit / into_boxed_slice: shrink_slice(ptr, cap, len) -- nothing unless the handle shrinks
 \* and the buffer is the most recent allocation; WithoutShrink never shrinks
